@@ -380,6 +380,7 @@ class HandshakeOpenFlowHandlers (OpenFlowHandlers):
     con.ofnexus.raiseEventNoErrors(ConnectionHandshakeComplete, con)
 
     e = con.ofnexus.raiseEventNoErrors(ConnectionUp, con, con.features)
+    if con.disconnected: return # A ConnectionUp handler dropped the connection
     if e is None or e.halt != True:
       con.raiseEventNoErrors(ConnectionUp, con, con.features)
 
